@@ -181,7 +181,13 @@ impl TableBootstrapInner {
             let mut receivers = FuturesUnordered::new();
             let (new_receivers_tx, mut new_receivers_rx) = mpsc::unbounded_channel();
 
-            let contact_count = router_addresses.len() + self.starting_nodes.len();
+            // A starting node that is also one of the routers is contacted only once.
+            let contact_count = router_addresses.len()
+                + self
+                    .starting_nodes
+                    .iter()
+                    .filter(|addr| !router_addresses.contains(addr))
+                    .count();
             let stop_at = std::cmp::min(contact_count, MAX_INITIAL_RESPONSES);
             let mut responses_received = 0;
 
@@ -324,7 +330,14 @@ impl TableBootstrapInner {
         let mut last_send_error = None;
         let mut count = 0;
 
-        for addr in router_addresses.iter().chain(self.starting_nodes.iter()) {
+        // All initial requests share one transaction id, so each address must be contacted at
+        // most once: skip starting nodes that are among the routers.
+        let starting_nodes = self
+            .starting_nodes
+            .iter()
+            .filter(|addr| !router_addresses.contains(addr));
+
+        for addr in router_addresses.iter().chain(starting_nodes) {
             // Throttle sending if there is too many initial contacts
             if count > PINGS_PER_BUCKET {
                 time::sleep(NODE_TIMEOUT.max(Self::nat_friendly_send_duration())).await;
